@@ -223,6 +223,33 @@ namespace embedded_pairing::wkdibe {
         qualified.a1.copy(sk.a1);
     }
 
+    /*
+     * Attribute identities are arbitrary 256-bit integers and act modulo the
+     * group order. The helpers below compute (to - from) and (-from) modulo
+     * the group order for such integers.
+     */
+    static void reduce_id(Scalar& result, const ID& id) {
+        result.copy(id);
+        while (Scalar::compare(result, group_order) != -1) {
+            result.subtract(result, group_order);
+        }
+    }
+
+    static void id_difference(Scalar& diff, const ID& to, const ID& from) {
+        Scalar from_reduced;
+        reduce_id(diff, to);
+        reduce_id(from_reduced, from);
+        if (diff.subtract(diff, from_reduced)) {
+            diff.add(diff, group_order);
+        }
+    }
+
+    static void id_negation(Scalar& diff, const ID& from) {
+        Scalar from_reduced;
+        reduce_id(from_reduced, from);
+        diff.subtract(group_order, from_reduced);
+    }
+
     void adjust_nondelegable(SecretKey& sk, const SecretKey& parent, const AttributeList& from, const AttributeList& to) {
         G1 temp;
         Scalar diff;
@@ -247,14 +274,12 @@ namespace embedded_pairing::wkdibe {
             if (j != from.length || k != to.length) {
                 if (sub_from && add_to) {
                     if (!ID::equal(from.attrs[j].id, to.attrs[k].id)) {
-                        if (diff.subtract(to.attrs[k].id, from.attrs[j].id)) {
-                            diff.add(diff, group_order);
-                        }
+                        id_difference(diff, to.attrs[k].id, from.attrs[j].id);
                         temp.multiply(parent.b[i].hexp, diff);
                         sk.a0.add(sk.a0, temp);
                     }
                 } else if (sub_from) {
-                    diff.subtract(group_order, from.attrs[j].id);
+                    id_negation(diff, from.attrs[j].id);
                     temp.multiply(parent.b[i].hexp, diff);
                     sk.a0.add(sk.a0, temp);
                 } else if (add_to) {
@@ -294,16 +319,14 @@ namespace embedded_pairing::wkdibe {
             const Attribute& to_attr = to.attrs[j];
             if (from_attr.idx == to_attr.idx) {
                 if (!ID::equal(from_attr.id, to_attr.id)) {
-                    if (diff.subtract(to_attr.id, from_attr.id)) {
-                        diff.add(diff, group_order);
-                    }
+                    id_difference(diff, to_attr.id, from_attr.id);
                     temp.multiply(params.h[to_attr.idx], diff);
                     precomputed.prodexp.add(precomputed.prodexp, temp);
                 }
                 i++;
                 j++;
             } else if (from_attr.idx < to_attr.idx) {
-                diff.subtract(group_order, from_attr.id);
+                id_negation(diff, from_attr.id);
                 temp.multiply(params.h[from_attr.idx], diff);
                 precomputed.prodexp.add(precomputed.prodexp, temp);
                 i++;
@@ -315,7 +338,7 @@ namespace embedded_pairing::wkdibe {
         }
         while (i != from.length) {
             const Attribute& from_attr = from.attrs[i];
-            diff.subtract(group_order, from_attr.id);
+            id_negation(diff, from_attr.id);
             temp.multiply(params.h[from_attr.idx], diff);
             precomputed.prodexp.add(precomputed.prodexp, temp);
             i++;
